@@ -1,8 +1,58 @@
-/- line-protocol handlers for the C02 models (stub: nothing modelled yet) -/
+/- line-protocol handlers for the C02 models -/
 import FontVerif.Model.Base
+import FontVerif.Model.Interp
 namespace FontVerif.Drv.C02
-open FontVerif
+open FontVerif FontVerif.Interp
 
-def handle (_cmd : String) (_args : List String) : Option String := none
+def progName (p : Nat) : String := if p = 0 then "Font" else if p = 1 then "ControlValue" else "Glyph"
+
+def mkCfg (font cv glyph : List Nat) (limit : Nat) (ped : Bool) : Cfg Nat :=
+  { font := font.toArray, cv := cv.toArray, glyph := glyph.toArray, limit := limit, pedantic := ped,
+    sem := semSubset ped }
+
+def renderErr (stage : String) (s : St Nat) (e : Err) : String :=
+  s!"{stage}:err:{e.name}:{progName s.current}:{s.pc}"
+
+/-- `interp <limitFontCv> <limitGlyph> <stackCap> <nFuncs> <nIdefs> <fpgm> <prep> <glyph|none>`:
+    HintInstance::reconfigure (font program, then control value program on the same engine — the value stack is
+    not cleared in between) and, when a glyph program is given, HintInstance::hint in pedantic mode. -/
+def interp (limFC limG cap nF nI : Nat) (font cv : List Nat) (glyph : Option (List Nat)) : String :=
+  let c := mkCfg font cv [] limFC false
+  let blank : List Def := (List.range nF).map (fun _ => {})
+  let blankI : List Def := (List.range nI).map (fun _ => {})
+  let s1 := run c (initSt 0 blank blankI [] cap)
+  match s1.status with
+  | .failed e => renderErr "new" s1 e
+  | .stuck => "stuck"
+  | .running => "running"
+  | .done =>
+    let s2 := run c (initSt 1 s1.funcs s1.idefs s1.vs cap)
+    match s2.status with
+    | .failed e => renderErr "new" s2 e
+    | .stuck => "stuck"
+    | .running => "running"
+    | .done =>
+      match glyph with
+      | none => "ok"
+      | some g =>
+        let cg := mkCfg font cv g limG true
+        let s3 := run cg (initSt 2 s2.funcs s2.idefs [] cap)
+        match s3.status with
+        | .failed e => renderErr "draw" s3 e
+        | .stuck => "stuck"
+        | .running => "running"
+        | .done => "ok"
+
+def handle (cmd : String) (args : List String) : Option String :=
+  match cmd, args with
+  | "interp", [a, b, cp, nf, ni, f, p, g] =>
+    match parseNat? a, parseNat? b, parseNat? cp, parseNat? nf, parseNat? ni, parseHex? f, parseHex? p with
+    | some a, some b, some cp, some nf, some ni, some f, some p =>
+      if g = "none" then some (interp a b cp nf ni f p none)
+      else match parseHex? g with
+        | some g => some (interp a b cp nf ni f p (some g))
+        | none => some "bad-args"
+    | _, _, _, _, _, _, _ => some "bad-args"
+  | _, _ => none
 
 end FontVerif.Drv.C02
